@@ -268,6 +268,127 @@ def same_outcome_eq(ref, got):
 
 
 
+
+# ---- numpy object arrays (foreign objects routed to map_numpy_array) ----------------------------------
+
+class ArrayStream(Stream):
+    """numpy object arrays of expressions (scalars, tuples, lists, nested arrays as entries): the
+    evaluator must return an object array of the SAME shape whose entries are the values of the
+    entries, evaluated in row-major order (first error wins).  Model side: the array read as the
+    Python list of its entries in row-major order (`map_numpy_array` = `map_list` on `expr.flat`,
+    re-shaped), i.e. `den` of a `.list` node; the shape and container types are judged by the oracle."""
+    name = "arrays"
+
+    SHAPES = [[0], [1], [2], [3], [4], [1, 1], [1, 2], [2, 1], [2, 2], [2, 3], [3, 2], [1, 1, 2],
+              [2, 1, 2], [2, 2, 2], []]
+
+    def cases(self, rng, tier):
+        n = 500 if tier == "quick" else 6000
+        g = ExprGen(rng)
+        done = 0
+        while done < n:
+            shape = rng.choice(self.SHAPES)
+            cnt = 1
+            for d in shape:
+                cnt *= d
+            mode = rng.choice(["scalar", "scalar", "seq", "seq", "mixed"])
+            seqlen = rng.randint(1, 3)
+            seqkind = rng.choice(["tuple", "list"])
+            entries = []
+            for _ in range(cnt):
+                k = mode if mode != "mixed" else rng.choice(["scalar", "seq"])
+                if k == "scalar":
+                    e = g.gen(rng.choice(["num", "int", "num", "any"]), rng.randint(1, 2))
+                else:
+                    items = [g.gen("num", rng.randint(1, 2))
+                             for _ in range(seqlen if mode == "seq" else rng.randint(0, 3))]
+                    kind = seqkind if mode == "seq" else rng.choice(["tuple", "list"])
+                    e = tuple(items) if kind == "tuple" else list(items)
+                entries.append(e)
+            env = rand_env(rng)
+            if not all(is_safe(e, env) for e in entries):
+                continue
+            done += 1
+            yield {"shape": shape, "entries": [dumps(expr_to_sx(e)) for e in entries],
+                   "env": dumps(env_to_sx(env)), "entry": rng.choice(["call", "evaluate"])}
+
+    @staticmethod
+    def _build(pl):
+        import numpy as np
+        arr = np.empty(tuple(pl["shape"]), dtype=object)
+        flat = [sx_to_expr(loads(s)) for s in pl["entries"]]
+        for i, idx in enumerate(np.ndindex(*pl["shape"])):
+            arr[idx] = flat[i]
+        return arr, flat
+
+    @staticmethod
+    def _run(pl, arr, env):
+        from pymbolic.mapper.evaluator import EvaluationMapper, evaluate
+        if pl["entry"] == "call":
+            return EvaluationMapper(env)(arr)
+        return evaluate(arr, env, mapper_cls=EvaluationMapper)
+
+    def request(self, pl):
+        return f"(evalhist false {pl['env']} ((List {' '.join(pl['entries'])})))"
+
+    def run_impl(self, pl):
+        import numpy as np
+        arr, _ = self._build(pl)
+        env = sx_to_env(loads(pl["env"]))
+
+        def go():
+            r = self._run(pl, arr, env)
+            if not isinstance(r, np.ndarray) or r.dtype != object or list(r.shape) != pl["shape"]:
+                return Malformed(r)
+            return [r[idx] for idx in np.ndindex(*pl["shape"])]
+        return "(" + result_sx(go) + ")"
+
+    def oracle(self, pl):
+        import numpy as np
+        arr, flat = self._build(pl)
+        env = sx_to_env(loads(pl["env"]))
+        ref = outcome(lambda: [pyeval(e, env) for e in flat])
+        got = outcome(lambda: self._run(pl, arr, dict(env)))
+        if got[0] == "ok":
+            r = got[1]
+            if not isinstance(r, np.ndarray) or r.dtype != object or list(r.shape) != pl["shape"]:
+                return Failure("eval-differs:ndarray-shape",
+                               f"evaluating an object array of shape {pl['shape']} gives "
+                               f"{type(r).__name__} dtype={getattr(r, 'dtype', None)} "
+                               f"shape={getattr(r, 'shape', None)}", pl)
+            got = ("ok", [r[idx] for idx in np.ndindex(*pl["shape"])])
+        if not same_outcome(ref, got):
+            return Failure("eval-differs:ndarray",
+                           f"evaluator gives {got!r}, entry-wise plain Python gives {ref!r}", pl)
+        return None
+
+    def shrink(self, pl):
+        for i, s in enumerate(pl["entries"]):
+            for t in sx_shrinks(loads(s)):
+                yield {**pl, "entries": pl["entries"][:i] + [dumps(t)] + pl["entries"][i + 1:]}
+
+    def nontrivial_key(self, pl, model, impl):
+        return None if not pl["entries"] else json_key(pl)
+
+    def stats(self, pl, mo, io, acc):
+        k = "shape_" + "x".join(map(str, pl["shape"])) if pl["shape"] else "shape_0d"
+        acc[k] = acc.get(k, 0) + 1
+        res = acc.setdefault("result_kinds", {})
+        r = "err" if "(err" in io[:6] else "ok"
+        res[r] = res.get(r, 0) + 1
+
+
+class Malformed:
+    """an evaluator result that is not an object array of the input's shape"""
+    def __init__(self, r):
+        self.r = r
+
+
+def json_key(pl):
+    import json
+    return json.dumps(pl, sort_keys=True)
+
+
 # ---- T-gen tie: the table regenerated from the source of the evaluator ------------------------------
 
 def extract(ctx=None):
@@ -401,7 +522,8 @@ PROP = Prop(
     title="Evaluation gives every node type its standard meaning",
     lean_targets=["PV.Properties.C02", "PV.Properties.C02Table"],
     extractors=[extract],
-    streams=[PyNumStream(), DenStream(), HistStream(), TableDispatchStream(), TableEvalStream()],
+    streams=[PyNumStream(), DenStream(), HistStream(), ArrayStream(), TableDispatchStream(),
+             TableEvalStream()],
     trusted_base=[
         "Lean 4.33 kernel; axioms propext, Classical.choice, Quot.sound only",
         "PyNum (lean/PV/Model/PyNum.lean): model of CPython int/bool/Fraction arithmetic, "
